@@ -7,7 +7,7 @@ CONSTANT Scope    \* "singles" | "pairs"
 VARIABLE fv
 Candidates == IF Scope = "singles" THEN Singles \cup Vary3("site", "cls", "ids") \cup Vary3("site", "cls", "imports")
               ELSE Pairs \cup Vary3("site", "cls", "ids") \cup Vary3("site", "cls", "imports") \cup Vary3("site", "cls", "reset") \cup Vary3("site", "cls", "mapIds") \cup Vary3("site", "cls", "connId")
-Init == fv \in {f \in Candidates : Sensible(f)}
+Init == fv \in {f \in Candidates : Sensible(f) /\ ~f.twin}   \* names are unique in C02's domain
 Next == UNCHANGED fv
 Spec == Init /\ [][Next]_fv
 Emit == EmitScenario([fv |-> fv, am |-> ModelOf(fv)])
